@@ -29,7 +29,7 @@ theorem generated_ready_shape :
 
 theorem c16_on_source (wf : Wf) (hac : acyclic wf) (ts : List Nat) (hts : ∀ t ∈ ts, t ≤ wf.n) :
     ∃ rs, runSet runSem wf (some ts) = some rs ∧ rs.Nodup ∧ ∀ q, q ∈ rs ↔ q ∈ ts ∨ ∃ t ∈ ts, Reach wf q t :=
-  c16_runset_is_closure runSem generated_run_sem_good.1 wf hac ts hts
+  c16_runset_is_closure runSem generated_run_sem_good.1 generated_run_sem_good.2.2.2.2.2.2.1 generated_run_sem_good.2.2.2.2.2.2.2 wf hac ts hts
 
 end SciVerif.Tie
 #print axioms SciVerif.Tie.generated_run_sem_good
